@@ -376,9 +376,14 @@ def build_fn(item, spec, canary, log):
             cl.append("    %s\n" % kind + "".join("        %s%s,\n" % (MARK % _reg((kind, c[1], c[2], c[3] if len(c) > 3 else None)), c[2]) for c in group))
     if spec.get("no_decreases"):
         sig = "#[verifier::exec_allows_no_decreases_clause]\n" + sig
+    if spec.get("loops_see_context"):
+        # facts established before a loop stay visible inside it (needed when a local shadows a parameter the postcondition names)
+        sig = "#[verifier::loop_isolation(false)]\n#[verifier::allow_complex_invariants]\n" + sig
     if spec.get("spinoff"):
         sig = "#[verifier::spinoff_prover]\n" + sig      # own solver process: lets Verus check the functions of one file in parallel (no semantic effect)
-    if canary:
+    # with loops_see_context a failed canary at the body start would be ASSUMED inside the loops and make their canaries pass:
+    # the loop canaries alone then stand for the body too (a reachable loop body means a satisfiable precondition)
+    if canary and not (spec.get("loops_see_context") and spec.get("loops")):
         body = "{\n%sproof { assert(false); } // canary\n" % (MARK % _reg(("canary", "body", ""))) + body[1:]
     out = sig.rstrip() + "\n" + "".join(cl) + body
     # resolve marks to line offsets
